@@ -7,3 +7,7 @@ open TFVerif.C07
 #print axioms getitem_chain
 #print axioms getitem_columns_unchanged
 #print axioms overshooting_slice
+#print axioms getitem_rows_ragged
+#print axioms getitem_rows_ragged_cells
+#print axioms getitem_raises_iff_ragged
+#print axioms getitem_chain_ragged
